@@ -37,6 +37,16 @@ def check(out, ctx):
             out.violation("c05:%s:%s:%s" % (oc.g.gid, rule, inp.encode().hex()),
                           "grammar with @memoize and the same grammar without it disagree on %r" % inp,
                           common.case_payload(oc, st, unmarked_grammar=c.g.text, unmarked_result=b))
+    # the specification never looks at @memoize (MemoSpec.srun_strip): it is the meaning of the unmarked grammar
+    for c in st["cases"]:
+        if not c.g.meta["memo"] or c.g.meta["leftrec"] or c.g.meta["ctx"]:
+            continue
+        if c.impl["k"] not in ("OK", "ERR") or c.spec["k"] not in ("OK", "ERR"):
+            continue
+        if c.impl["k"] != c.spec["k"] or (c.impl["k"] == "OK" and c.impl["tree"] != c.spec["tree"]):
+            out.violation("c05spec:%s:%s:%s" % (c.g.gid, c.rule, c.inp.encode().hex()[:64]),
+                          "a grammar with @memoize rules does not accept / build what the unmarked grammar means on an input of %d bytes" % len(c.inp.encode()),
+                          common.case_payload(c, st))
     bad = common.correspondence(out, st, cases)
     # history independence: the memoized grammars' cases again, in reverse order, in one process per shard
     rev = list(reversed(cases))[: (800 if ctx.tier == "quick" else 8000)]
